@@ -28,6 +28,12 @@ Section Eval.
         | Some v => [(b, v)]
         | None => flat_map (fun bv => map (fun e => (bind (fst bv) id e, e)) (elements (snd bv))) (eval_term t' b)
         end
+    | TConcat id t' =>
+        (* Concatenate._evaluate__: drain the child under the incoming binding, extend one list, yield ONE row *)
+        match lookup b id with
+        | Some v => [(b, v)]
+        | None => let all := VTup (flat_map (fun bv => atoms_of (snd bv)) (eval_term t' b)) in [(bind b id all, all)]
+        end
     end.
 
   (* Comparator.get_first_second_operands: the right operand goes first when one of its variables is bound *)
@@ -49,6 +55,18 @@ Section Eval.
     forallb (fun kv => match lookup b (fst kv) with Some v => veqb v (snd kv) | None => false end) a.
   Definition merge (b extra : binding) : binding :=
     fold_right (fun kv acc => if bound acc (fst kv) then acc else bind acc (fst kv) (snd kv)) b extra.
+
+  (* ForAll: the rows of the pass for the first universal value, intersected with those of every further pass
+     (exact equality of the restricted rows); an empty intermediate result stops the loop *)
+  Definition inter (pass : val -> list binding) (us : list val) : list binding :=
+    match us with
+    | [] => []
+    | v0 :: vs =>
+        fold_left (fun acc v => match acc with
+                                | [] => []
+                                | _ => filter (fun d => existsb (binding_eqb d) (pass v)) acc
+                                end) vs (pass v0)
+    end.
 
   Fixpoint nodup_keys (l : list key) : list key :=
     match l with [] => [] | k :: l' => if existsb (Nat.eqb k) l' then nodup_keys l' else k :: nodup_keys l' end.
@@ -76,16 +94,19 @@ Section Eval.
            variables of the condition are intersected by exact equality; an empty pass empties the result *)
         let free := nodup_keys (filter (fun k => negb (Nat.eqb k u)) (cvars c')) in
         let pass (v : val) : list binding :=
-          map (fun p => restrict_to free (fst p)) (filter (fun p => negb (snd p)) (eval c' (bind b u v) false)) in
-        let sols :=
-          match dom u with
-          | [] => []
-          | v0 :: vs =>
-              fold_left (fun acc v => match acc with
-                                      | [] => []
-                                      | _ => let cur := pass v in filter (fun d => existsb (binding_eqb d) cur) acc
-                                      end) vs (pass v0)
-          end in
+          (* a row that leaves a free variable unbound stands for every value of it: bind them first *)
+          flat_map (fun p : binding * bool =>
+                      map (restrict_to free)
+                          ((fix bind_vars (xs : list key) (b1 : binding) : list binding :=
+                              match xs with
+                              | [] => [b1]
+                              | x :: xs' => match lookup b1 x with
+                                            | Some _ => bind_vars xs' b1
+                                            | None => flat_map (fun w => bind_vars xs' (bind b1 x w)) (dom x)
+                                            end
+                              end) free (fst p)))
+                   (filter (fun p => negb (snd p)) (eval c' (bind b u v) false)) in
+        let sols := inter pass (dom u) in
         map (fun s => (merge b s, false)) sols
     | CSub sel c' =>
         (* nested An(Entity/SetOf): the rows of its condition, its own selected expressions bound one after the other *)
@@ -116,3 +137,8 @@ Section Eval.
                 end in
     flat_map (fun b => map (row_of sel) (bind_selected sel b)) rows.
 End Eval.
+
+(* the(...): consume the rows; fail on the second, fail if there is none (The._evaluate_) *)
+Inductive outcome := ONone | OValue (r : list val) | OMany.
+Definition the_of (rows : list (list val)) : outcome :=
+  match rows with [] => ONone | [r] => OValue r | _ :: _ :: _ => OMany end.
